@@ -162,7 +162,7 @@ func c08Site(s castSite) (outcome string, viol string) {
 
 func init() {
 	campaigns["C08"] = func(c *Ctx) {
-		c.Rule = "exhaustive: (a) the reflect layout (field, offset, size; total size) of each of the 14 structs against the go/types layout in the regenerated tables; (b) every To* helper x every struct x {value, pointer} x {type property a marker, type property naming the target}: accepted or refused as the regenerated type-switch lists predict, and for accepted conversions every field of the view read against the like-named field (items<->orderedItems) of a source filled with distinct markers, every field written through pointer views and checked on the original, untouched fields re-checked, and the view's size against the source's. Thorough: every accepted site re-run in a child process of a binary built with -gcflags=all=-d=checkptr. Non-trivial = the source struct differs from the view struct."
+		c.Rule = "exhaustive: (a) the reflect layout (field, offset, size; total size) of each of the 14 structs against the go/types layout in the regenerated tables; (b) every To* helper x every struct x {value, pointer} x {type property a marker, type property naming the target}: accepted or refused as the regenerated type-switch lists predict, and for accepted conversions every field of the view read against the like-named field (items<->orderedItems) of a source filled with distinct markers, every field written through pointer views and checked on the original, untouched fields re-checked, and the view's size against the source's. (c) pointers to types of another scope whose underlying type is a vocabulary struct, through the reflection fallback: a write through the view must reach the original; (d) every On* helper x every struct x {value, pointer}: the callback's argument is never a pointer to a struct larger than the source. Thorough: every accepted site re-run in a child process of a binary built with -gcflags=all=-d=checkptr. Non-trivial = the source struct differs from the view struct."
 		for _, t := range allGoTypes {
 			rt := goTypes[t]
 			var fs []interface{}
@@ -214,9 +214,80 @@ func init() {
 				}
 			}
 		}
+		// (c) types of another scope whose underlying type is a vocabulary struct reach the helpers through the
+		// reflection fallback (ConvertibleTo): the view of a pointer must be the same memory
+		for _, f := range c08Foreign {
+			viol := ""
+			if p, msg := guard(func() { viol = f.run() }); p {
+				viol = "panic: " + msg
+			}
+			c.Count(map[string]interface{}{"foreign": f.name}, true)
+			c.Tag("foreign-type")
+			if viol != "" {
+				c.Fail("C08/view", f.name+": "+viol, map[string]interface{}{"foreign": f.name})
+			}
+		}
+		// (d) what the callbacks of the On* helpers receive: a view never larger than the value it was made from
+		for _, src := range allGoTypes {
+			for _, ptr := range []bool{true, false} {
+				for _, h := range c08OnHelpers {
+					pv := reflect.New(goTypes[src])
+					fillMarkers(pv.Elem(), "a-")
+					pv.Elem().FieldByName("Type").SetString(vocab[src][0])
+					var it ap.Item
+					if ptr {
+						it = pv.Interface().(ap.Item)
+					} else {
+						it = pv.Elem().Interface().(ap.Item)
+					}
+					var got reflect.Type
+					p, msg := guard(func() { got = h.run(it) })
+					c.Count(map[string]interface{}{"on": h.name, "src": src, "ptr": ptr}, true)
+					c.Tag("on-callback")
+					in := map[string]interface{}{"on": h.name, "src": src, "ptr": ptr}
+					if p {
+						c.Fail("C08/panic", h.name+"("+src+") panics: "+msg, in)
+						continue
+					}
+					if got != nil && got.Kind() == reflect.Ptr && got.Elem().Kind() == reflect.Struct && got.Elem().Size() > goTypes[src].Size() {
+						c.Fail("C08/widening:"+h.name+"("+src+")", fmt.Sprintf("%s hands its callback a %s (%d bytes) made from a %s (%d bytes): the view exposes memory outside the original",
+							h.name, got, got.Elem().Size(), src, goTypes[src].Size()), in)
+					}
+				}
+			}
+		}
 		c.Exhaust = true
 	}
 	replayers["C08"] = func(class string, input []byte) string {
+		var g map[string]interface{}
+		if json.Unmarshal(input, &g) == nil {
+			if n, ok := g["foreign"].(string); ok {
+				for _, f := range c08Foreign {
+					if f.name == n {
+						return f.run()
+					}
+				}
+			}
+			if n, ok := g["on"].(string); ok {
+				for _, h := range c08OnHelpers {
+					if h.name == n {
+						src := g["src"].(string)
+						pv := reflect.New(goTypes[src])
+						fillMarkers(pv.Elem(), "a-")
+						pv.Elem().FieldByName("Type").SetString(vocab[src][0])
+						var it ap.Item = pv.Interface().(ap.Item)
+						if g["ptr"] != true {
+							it = pv.Elem().Interface().(ap.Item)
+						}
+						got := h.run(it)
+						if got != nil && got.Kind() == reflect.Ptr && got.Elem().Kind() == reflect.Struct && got.Elem().Size() > goTypes[src].Size() {
+							return fmt.Sprintf("%s hands its callback a %s larger than the %s it was made from", n, got, src)
+						}
+						return ""
+					}
+				}
+			}
+		}
 		var s castSite
 		if err := json.Unmarshal(input, &s); err != nil {
 			return "bad replay input"
@@ -224,4 +295,149 @@ func init() {
 		_, viol := c08Site(s)
 		return viol
 	}
+}
+
+// types of another scope with a vocabulary struct as underlying type
+type c08FNote ap.Object
+type c08FActor ap.Actor
+type c08FActivity ap.Activity
+
+// they are Items through explicit methods (the vocabulary methods are not inherited by a defined type)
+func (n *c08FNote) GetID() ap.ID                       { return n.ID }
+func (n *c08FNote) GetLink() ap.IRI                    { return n.ID }
+func (n *c08FNote) GetType() ap.ActivityVocabularyType { return n.Type }
+func (n *c08FNote) IsLink() bool                       { return false }
+func (n *c08FNote) IsObject() bool                     { return true }
+func (n *c08FNote) IsCollection() bool                 { return false }
+func (n *c08FActor) GetID() ap.ID                       { return n.ID }
+func (n *c08FActor) GetLink() ap.IRI                    { return n.ID }
+func (n *c08FActor) GetType() ap.ActivityVocabularyType { return n.Type }
+func (n *c08FActor) IsLink() bool                       { return false }
+func (n *c08FActor) IsObject() bool                     { return true }
+func (n *c08FActor) IsCollection() bool                 { return false }
+func (n *c08FActivity) GetID() ap.ID                       { return n.ID }
+func (n *c08FActivity) GetLink() ap.IRI                    { return n.ID }
+func (n *c08FActivity) GetType() ap.ActivityVocabularyType { return n.Type }
+func (n *c08FActivity) IsLink() bool                       { return false }
+func (n *c08FActivity) IsObject() bool                     { return true }
+func (n *c08FActivity) IsCollection() bool                 { return false }
+
+type c08ForeignCase struct {
+	name string
+	run  func() string
+}
+
+var c08Foreign = []c08ForeignCase{
+	{"ToObject(*foreign note)", func() string {
+		n := &c08FNote{ID: "https://example.com/f/1", Type: ap.NoteType}
+		v, err := ap.ToObject(n)
+		if err != nil {
+			return "" // refusing is allowed
+		}
+		v.Summary = ap.NaturalLanguageValues{{Ref: ap.NilLangRef, Value: ap.Content("written through the view")}}
+		if len(n.Summary) != 1 {
+			return "a write through the view of a pointer is not seen by the original (the view is a copy)"
+		}
+		return ""
+	}},
+	{"OnObject(*foreign note)", func() string {
+		n := &c08FNote{ID: "https://example.com/f/2", Type: ap.NoteType}
+		err := ap.OnObject(n, func(o *ap.Object) error { o.MediaType = "text/plain"; return nil })
+		if err == nil && n.MediaType != "text/plain" {
+			return "a write through the view handed to the callback is not seen by the original"
+		}
+		return ""
+	}},
+	{"ToActor(*foreign actor)", func() string {
+		n := &c08FActor{ID: "https://example.com/f/3", Type: ap.PersonType}
+		v, err := ap.ToActor(n)
+		if err != nil {
+			return ""
+		}
+		v.PreferredUsername = ap.NaturalLanguageValues{{Ref: ap.NilLangRef, Value: ap.Content("u")}}
+		if len(n.PreferredUsername) != 1 {
+			return "a write through the view of a pointer is not seen by the original (the view is a copy)"
+		}
+		return ""
+	}},
+	{"ToActivity(*foreign activity)", func() string {
+		n := &c08FActivity{ID: "https://example.com/f/4", Type: ap.CreateType}
+		v, err := ap.ToActivity(n)
+		if err != nil {
+			return ""
+		}
+		v.Object = ap.IRI("https://example.com/o")
+		if n.Object == nil {
+			return "a write through the view of a pointer is not seen by the original (the view is a copy)"
+		}
+		return ""
+	}},
+}
+
+type c08OnHelper struct {
+	name string
+	run  func(it ap.Item) reflect.Type
+}
+
+var c08OnHelpers = []c08OnHelper{
+	{"OnObject", func(it ap.Item) (t reflect.Type) {
+		_ = ap.OnObject(it, func(o *ap.Object) error { t = reflect.TypeOf(o); return nil })
+		return
+	}},
+	{"OnActor", func(it ap.Item) (t reflect.Type) {
+		_ = ap.OnActor(it, func(o *ap.Actor) error { t = reflect.TypeOf(o); return nil })
+		return
+	}},
+	{"OnActivity", func(it ap.Item) (t reflect.Type) {
+		_ = ap.OnActivity(it, func(o *ap.Activity) error { t = reflect.TypeOf(o); return nil })
+		return
+	}},
+	{"OnIntransitiveActivity", func(it ap.Item) (t reflect.Type) {
+		_ = ap.OnIntransitiveActivity(it, func(o *ap.IntransitiveActivity) error { t = reflect.TypeOf(o); return nil })
+		return
+	}},
+	{"OnQuestion", func(it ap.Item) (t reflect.Type) {
+		_ = ap.OnQuestion(it, func(o *ap.Question) error { t = reflect.TypeOf(o); return nil })
+		return
+	}},
+	{"OnCollection", func(it ap.Item) (t reflect.Type) {
+		_ = ap.OnCollection(it, func(o *ap.Collection) error { t = reflect.TypeOf(o); return nil })
+		return
+	}},
+	{"OnOrderedCollection", func(it ap.Item) (t reflect.Type) {
+		_ = ap.OnOrderedCollection(it, func(o *ap.OrderedCollection) error { t = reflect.TypeOf(o); return nil })
+		return
+	}},
+	{"OnCollectionPage", func(it ap.Item) (t reflect.Type) {
+		_ = ap.OnCollectionPage(it, func(o *ap.CollectionPage) error { t = reflect.TypeOf(o); return nil })
+		return
+	}},
+	{"OnOrderedCollectionPage", func(it ap.Item) (t reflect.Type) {
+		_ = ap.OnOrderedCollectionPage(it, func(o *ap.OrderedCollectionPage) error { t = reflect.TypeOf(o); return nil })
+		return
+	}},
+	{"OnCollectionIntf", func(it ap.Item) (t reflect.Type) {
+		_ = ap.OnCollectionIntf(it, func(o ap.CollectionInterface) error { t = reflect.TypeOf(o); return nil })
+		return
+	}},
+	{"OnPlace", func(it ap.Item) (t reflect.Type) {
+		_ = ap.OnPlace(it, func(o *ap.Place) error { t = reflect.TypeOf(o); return nil })
+		return
+	}},
+	{"OnProfile", func(it ap.Item) (t reflect.Type) {
+		_ = ap.OnProfile(it, func(o *ap.Profile) error { t = reflect.TypeOf(o); return nil })
+		return
+	}},
+	{"OnRelationship", func(it ap.Item) (t reflect.Type) {
+		_ = ap.OnRelationship(it, func(o *ap.Relationship) error { t = reflect.TypeOf(o); return nil })
+		return
+	}},
+	{"OnTombstone", func(it ap.Item) (t reflect.Type) {
+		_ = ap.OnTombstone(it, func(o *ap.Tombstone) error { t = reflect.TypeOf(o); return nil })
+		return
+	}},
+	{"OnLink", func(it ap.Item) (t reflect.Type) {
+		_ = ap.OnLink(it, func(o *ap.Link) error { t = reflect.TypeOf(o); return nil })
+		return
+	}},
 }
